@@ -380,6 +380,17 @@ func (s *Sim) park(t *Task, op *parkOp) int {
 	return d.val
 }
 
+// Progress tells the livelock detector that the calling task has just moved data (read or written
+// bytes on a simulated connection or pipe): thousands of consecutive steps of one task are normal
+// for a multi-megabyte transfer and are not spinning.
+//
+//go:norace
+func (s *Sim) Progress() {
+	s.mu.Lock()
+	s.spinN = 0
+	s.mu.Unlock()
+}
+
 // Yield is an interleaving point of the calling task.
 //
 //go:norace
